@@ -11,11 +11,14 @@ anything cryptographic.
 from __future__ import annotations
 
 import ast
+import copy
 import re
 
 from ..prog import AnalysisError, ClassInfo, FuncInfo, dotted, unparse
 from ..locks import LockAnalysis
 from ..match import pretty
+from .. import sem
+from . import secutil as SU
 from .secutil import norm
 
 PROP = "C05"
@@ -60,6 +63,41 @@ def _dict_at(d: ast.AST, keys: list):
     return cur
 
 
+KIND = {"sign_cam": {"digest", "certificate"}, "sign_denm": {"certificate"}, "sign_other": {"digest"}}   # signer choice per profile
+
+
+def _load(e: ast.AST) -> ast.AST:
+    e = copy.deepcopy(e)
+    for n in ast.walk(e):
+        if hasattr(n, "ctx"):
+            n.ctx = ast.Load()
+    return e
+
+
+def _rooted_path(fl, expr: ast.AST, st, root_x: ast.AST):
+    """`expr` (expanded in st) is a constant-key subscript chain below the object `root_x` -> '/k1/k2' else None."""
+    x = fl.expand(_load(expr), st)
+    parts = []
+    want = unparse(root_x)
+    while True:
+        if unparse(x) == want:
+            return "".join("/" + str(p) for p in reversed(parts))
+        if isinstance(x, ast.Subscript):
+            parts.append(x.slice.value if isinstance(x.slice, ast.Constant) else "?")
+            x = x.value
+            continue
+        return None
+
+
+def _no_loop(fl, node) -> bool:
+    cur = fl.parent.get(id(node))
+    while cur is not None and cur is not fl.fi.node:
+        if isinstance(cur, (ast.For, ast.While, ast.AsyncFor)):
+            return False
+        cur = fl.parent.get(id(cur))
+    return True
+
+
 def signers(ctx):
     P = ctx.prog
     ss = P.cls(SS)
@@ -68,198 +106,354 @@ def signers(ctx):
         fi = ss.methods.get(name)
         if fi is None:
             raise AnalysisError(f"C05: signer {name} vanished")
+        if len(fi.params) < 2:
+            raise AnalysisError(f"C05: {name} lost its request parameter")
+        req = fi.params[1]
         fl = ctx.flows.get(fi)
-        # the message dictionary literal
-        dvar, dlit = None, None
-        for n in fi.node.body:
-            if isinstance(n, ast.Assign) and isinstance(n.value, ast.Dict) and isinstance(n.targets[0], ast.Name):
-                dvar, dlit = n.targets[0].id, n.value
-                break
-        if dlit is None:
-            raise AnalysisError(f"C05: {name} no longer builds the message as a dict literal")
+        calls = P.calls_in(fi)
+        encs = [c for c in calls if isinstance(c.func, ast.Attribute) and c.func.attr == "encode_etsi_ts_103097_data_signed" and c.args]
+        tbss = [c for c in calls if isinstance(c.func, ast.Attribute) and c.func.attr == "encode_to_be_signed_data" and c.args]
+        if len(encs) != 1 or len(tbss) != 1:
+            raise AnalysisError(f"C05: {name}: TBS / final encoding call not found exactly once ({len(tbss)}/{len(encs)})")
+        enc, tbsc = encs[0], tbss[0]
+        st_enc = fl.state_at(enc)
+        # the message object: what is handed to the final encoder; it must have been built as a dictionary literal
+        root_x = fl.expand(enc.args[0], st_enc)
+        if not isinstance(root_x, ast.Dict):
+            raise AnalysisError(f"C05: {name} no longer builds the emitted message as a dict literal")
+        dvar = unparse(enc.args[0])
+        dlit = root_x
         hi = _dict_at(dlit, ["content", 1, "tbsData", "headerInfo"])
         lit_keys = {k.value for k in hi.keys if isinstance(k, ast.Constant)} if isinstance(hi, ast.Dict) else set()
-        # statements in order: stores, the TBS encoding, the final encoding
-        tbs_line = enc_line = None
+        tp = _rooted_path(fl, tbsc.args[0], fl.state_at(tbsc), root_x)
+        ctx.ob("C05.tbs-agree", fi.short(), "signs-own-tbsData", tp == "/content/1/tbsData",
+               f"the bytes signed are the encoding of `{unparse(tbsc.args[0])}` = message{tp} (must be the tbsData of the message being built)",
+               f"{fi.module.rel}:{tbsc.lineno}")
+        ctx.ob("C05.tbs-agree", fi.short(), "emits-same-object", isinstance(enc.args[0], ast.Name),
+               f"the message emitted is the object whose tbsData was signed (`{unparse(enc.args[0])}`)", f"{fi.module.rel}:{enc.lineno}")
+        tbs_line = tbsc.lineno
+        # every write into the message object: (path, value expr | None, statement, description)
         stores = []
         for n in ast.walk(fi.node):
-            if isinstance(n, ast.Call) and isinstance(n.func, ast.Attribute):
-                if n.func.attr == "encode_to_be_signed_data":
-                    tbs_line = n.lineno
-                    arg = norm(unparse(n.args[0]))
-                    ctx.ob("C05.tbs-agree", fi.short(), "signs-own-tbsData", arg == f"{dvar}['content'][1]['tbsData']",
-                           f"the bytes signed are the encoding of `{arg}` (must be the tbsData of the message being built)",
-                           f"{fi.module.rel}:{n.lineno}")
-                if n.func.attr == "encode_etsi_ts_103097_data_signed":
-                    enc_line = n.lineno
-                    ctx.ob("C05.tbs-agree", fi.short(), "emits-same-object", norm(unparse(n.args[0])) == dvar,
-                           f"the message emitted is the object whose tbsData was signed (`{unparse(n.args[0])}`)", f"{fi.module.rel}:{n.lineno}")
-            if isinstance(n, ast.Assign) and isinstance(n.targets[0], ast.Subscript):
-                stores.append(n)
-        if tbs_line is None or enc_line is None:
-            raise AnalysisError(f"C05: {name}: TBS / final encoding call not found")
+            if isinstance(n, (ast.Assign, ast.AugAssign, ast.AnnAssign)):
+                tgts = n.targets if isinstance(n, ast.Assign) else [n.target]
+                for t in tgts:
+                    if isinstance(t, ast.Subscript):
+                        pth = _rooted_path(fl, t, fl.state_at(n), root_x)
+                        if pth is not None:
+                            stores.append((pth, n.value if isinstance(n, ast.Assign) else None, n, "store"))
+            elif isinstance(n, ast.Delete):
+                for t in n.targets:
+                    if isinstance(t, ast.Subscript):
+                        pth = _rooted_path(fl, t, fl.state_at(n), root_x)
+                        if pth is not None:
+                            stores.append((pth, None, n, "del"))
+            elif isinstance(n, ast.Call) and isinstance(n.func, ast.Attribute) and n.func.attr in fl.MUTATORS:
+                pth = _rooted_path(fl, n.func.value, fl.state_at(n), root_x)
+                if pth is None:
+                    continue
+                if n.func.attr == "update" and len(n.args) == 1 and isinstance(n.args[0], ast.Dict) and not n.keywords and \
+                        all(isinstance(k, ast.Constant) for k in n.args[0].keys):
+                    for k, v in zip(n.args[0].keys, n.args[0].values):
+                        stores.append((f"{pth}/{k.value}", v, n, "store"))
+                else:
+                    stores.append((pth, None, n, f".{n.func.attr}()"))
         opt_keys = set()
-        for st_ in stores:
-            path = _path(st_.targets[0])
-            if not path.startswith(dvar + "/"):
-                continue
-            under_tbs = "/tbsData" in path
-            if under_tbs:
-                ctx.ob("C05.tbs-agree", fi.short(), f"store-before-signing:{path.split('/')[-1]}", st_.lineno < tbs_line,
-                       f"`{path}` is written at line {st_.lineno}, the TBS encoding happens at line {tbs_line}: signed content "
-                       + ("is complete before it is signed" if st_.lineno < tbs_line else "changes AFTER it was signed (receivers recompute a different hash)"),
-                       f"{fi.module.rel}:{st_.lineno}")
-                if path.endswith("/headerInfo/" + path.split("/")[-1]):
-                    opt_keys.add(path.split("/")[-1])
+        for path, v, st_, how in stores:
+            last = path.split("/")[-1]
+            loc = f"{fi.module.rel}:{st_.lineno}"
+            if path.startswith("/content/1/tbsData"):
+                before = st_.lineno < tbs_line and _no_loop(fl, st_) and _no_loop(fl, tbsc)
+                ctx.ob("C05.tbs-agree", fi.short(), f"store-before-signing:{last}", before,
+                       f"`{dvar}{path}` is written at line {st_.lineno}, the TBS encoding happens at line {tbs_line}: signed content "
+                       + ("is complete before it is signed" if before else "changes AFTER it was signed (receivers recompute a different hash)"), loc)
+                if how != "store" or v is None:
+                    ctx.ob("C05.tbs-agree", fi.short(), f"store:{last}:{how}", False,
+                           f"`{dvar}{path}` is modified by `{unparse(st_)[:60]}`: effect on the signed structure not recognised", loc)
+                    continue
+                if path == "/content/1/tbsData/headerInfo/" + last:
+                    opt_keys.add(last)
                 # aliasing: a bare reference to shared mutable state inside the signed structure can change between the encodings
-                v = st_.value
-                alias = isinstance(v, ast.Attribute) and isinstance(v.value, ast.Name) and v.value.id == "self"
-                ctx.ob("C05.tbs-agree", fi.short(), f"no-shared-alias:{path.split('/')[-1]}", not alias,
-                       f"`{path}` = `{unparse(v)}`" + (" - a live reference to a shared list: notify_unknown_at() running on the receive "
-                                                      "thread between the TBS encoding and the final encoding changes the signed "
-                                                      "content, and the emitted signature no longer verifies" if alias else
-                                                      " (a value / copy)"), f"{fi.module.rel}:{st_.lineno}")
+                xv = fl.expand(v, fl.state_at(st_))
+                alias = (dotted(xv) or "").startswith("self.")
+                ctx.ob("C05.tbs-agree", fi.short(), f"no-shared-alias:{last}", not alias,
+                       f"`{dvar}{path}` = `{pretty(unparse(xv))[:80]}`" + (" - a live reference to a shared list: notify_unknown_at() running on the receive "
+                                                                  "thread between the TBS encoding and the final encoding changes the signed "
+                                                                  "content, and the emitted signature no longer verifies" if alias else
+                                                                  " (a value / copy)"), loc)
             else:
-                ok = path.endswith("/signer") or path.endswith("/signature") or path.endswith("/signer/1")
-                ctx.ob("C05.tbs-agree", fi.short(), f"store:{path.split('/')[-1]}", ok,
-                       f"store to `{path}` (only signer / signature may be filled in after signing)", f"{fi.module.rel}:{st_.lineno}")
+                ok = path in ("/content/1/signer", "/content/1/signature", "/content/1/signer/1") and how == "store"
+                ctx.ob("C05.tbs-agree", fi.short(), f"store:{last}", ok,
+                       f"store to `{dvar}{path}` (only signer / signature may be filled in after signing)", loc)
         # profile keys
         ctx.ob("C05.profile-keys", fi.short(), "always", lit_keys == always,
                f"{name} always emits headerInfo {sorted(lit_keys)}; clause 7.1 profile requires exactly {sorted(always)}",
-               f"{fi.module.rel}:{dlit.lineno}")
+               f"{fi.module.rel}:{fi.node.lineno}")
         ctx.ob("C05.profile-keys", fi.short(), "optional", opt_keys <= optional,
                f"{name} may additionally emit {sorted(opt_keys)}; the profile allows {sorted(optional)}", fi.loc)
         emitted[name] = (psids, lit_keys, opt_keys)
-        # payload and psid provenance
+        # payload and psid provenance (values of the literal, locals expanded)
         pay = _dict_at(dlit, ["content", 1, "tbsData", "payload", "data", "content", 1])
-        ctx.ob("C05.tbs-agree", fi.short(), "payload", pay is not None and norm(unparse(pay)) == "request.tbs_message",
-               f"signed payload = `{unparse(pay) if pay is not None else None}`", fi.loc)
+        ctx.ob("C05.tbs-agree", fi.short(), "payload", pay is not None and sem.same(pay, f"{req}.tbs_message"),
+               f"signed payload = `{pretty(unparse(pay)) if pay is not None else None}`", fi.loc)
         ps = _dict_at(hi, ["psid"]) if isinstance(hi, ast.Dict) else None
-        ctx.ob("C05.profile-keys", fi.short(), "psid-from-request", ps is not None and norm(unparse(ps)) == "request.its_aid",
+        ctx.ob("C05.profile-keys", fi.short(), "psid-from-request", ps is not None and sem.same(ps, f"{req}.its_aid"),
                "headerInfo.psid is the request's ITS-AID", fi.loc)
         gt = _dict_at(hi, ["generationTime"]) if isinstance(hi, ast.Dict) else None
-        ctx.ob("C05.profile-keys", fi.short(), "generationTime-us", gt is not None and norm(unparse(gt)) == "TimeService.timestamp_its()*1000",
+        ctx.ob("C05.profile-keys", fi.short(), "generationTime-us", gt is not None and sem.same(gt, "TimeService.timestamp_its() * 1000"),
                "generationTime is the ITS timestamp in microseconds (ms x 1000)", fi.loc)
         # signing ticket
-        at_calls = [c for c in P.calls_in(fi) if isinstance(c.func, ast.Attribute) and c.func.attr == "get_present_at_for_signging"]
-        ok = len(at_calls) == 1 and norm(unparse(at_calls[0].args[0])) == "request.its_aid"
+        at_calls = [c for c in _service_calls(P, fi, "SignService", "get_present_at_for_signging") if sem.same(c.func.value, "self")]
+        ok = len(at_calls) == 1 and len(at_calls[0].args) == 1 and not at_calls[0].keywords and \
+            sem.same(fl.expand(at_calls[0].args[0], fl.state_at(at_calls[0])), f"{req}.its_aid")
         ctx.ob("C05.signing-ticket", fi.short(), "ticket-for-its-aid", ok, "the signing ticket is looked up for the request's ITS-AID", fi.loc)
-        raises = [(s, st) for k, s, st in fl.exits if k == "raise"]
-        none_raise = any(any(f.kind == "cond" and f.pol and norm(pretty(f.key)) == "at_itemisNone" for f in st.facts) for s, st in raises)
+        T = unparse(fl.expand(at_calls[0], fl.state_at(at_calls[0]))) if at_calls else "None"
+        raises = [s for k, s, st in fl.exits if k == "raise"]
+        none_raise = any(sem.holds(xatoms(fl, s), f"{T} is None") or sem.holds(xatoms(fl, s), f"not {T}") for s in raises)
         ctx.ob("C05.signing-ticket", fi.short(), "no-ticket-raises", none_raise, "a missing ticket raises instead of signing with another", fi.loc)
+        # the signature is the ticket's signature over the TBS encoding
+        sigs = [(v, n) for pth, v, n, how in stores if pth == "/content/1/signature" and how == "store" and v is not None]
+        TBS = unparse(fl.expand(tbsc, fl.state_at(tbsc)))
+        ok = len(sigs) == 1 and sem.same(fl.expand(sigs[0][0], fl.state_at(sigs[0][1])), f"{T}.sign_message(self.ecdsa_backend, {TBS})")
+        ctx.ob("C05.tbs-agree", fi.short(), "signature-over-tbs-bytes", ok,
+               "the signature stored is the looked-up ticket's signature over the TBS encoding of this message", fi.loc)
         # signer kind
-        sg = [st_ for st_ in stores if _path(st_.targets[0]).endswith("/signer")]
+        sg = [(v, n) for pth, v, n, how in stores if pth == "/content/1/signer" and how == "store" and v is not None]
+        sgx = fl.expand(sg[0][0], fl.state_at(sg[0][1])) if len(sg) == 1 else None
+        shown = pretty(unparse(sgx))[:100] if sgx is not None else None
         if name == "sign_denm":
-            ok = len(sg) == 1 and norm(unparse(sg[0].value)) == "('certificate',[at_item.certificate])"
-            ctx.ob("C05.signer-kind", fi.short(), "always-certificate", ok,
-                   f"DENM signer = `{unparse(sg[0].value) if sg else None}`; clause 7.1.2: always the certificate", fi.loc)
+            ctx.ob("C05.signer-kind", fi.short(), "always-certificate", sgx is not None and sem.same(sgx, f"('certificate', [{T}.certificate])"),
+                   f"DENM signer = `{shown}`; clause 7.1.2: always the certificate", fi.loc)
         elif name == "sign_cam":
-            ok = len(sg) == 1 and norm(unparse(sg[0].value)) == "self.cam_handler.set_up_signer(at_item)"
-            ctx.ob("C05.signer-kind", fi.short(), "digest-or-certificate", ok,
-                   f"CAM/VAM signer = `{unparse(sg[0].value) if sg else None}` (alternation handled by set_up_signer)", fi.loc)
+            ctx.ob("C05.signer-kind", fi.short(), "digest-or-certificate", sgx is not None and sem.same(sgx, f"self.cam_handler.set_up_signer({T})"),
+                   f"CAM/VAM signer = `{shown}` (alternation handled by set_up_signer)", fi.loc)
         elif name == "sign_other":
-            ok = len(sg) == 1 and norm(unparse(sg[0].value)) == "('digest',at_item.as_hashedid8())"
-            ctx.ob("C05.signer-kind", fi.short(), "digest", ok, f"generic signer = `{unparse(sg[0].value) if sg else None}`", fi.loc)
-    ctx.floor("C05.tbs-agree", 14)
+            ctx.ob("C05.signer-kind", fi.short(), "digest", sgx is not None and sem.same(sgx, f"('digest', {T}.as_hashedid8())"),
+                   f"generic signer = `{shown}`", fi.loc)
+    ctx.floor("C05.tbs-agree", 22)
     return emitted
+
+
+def generic_dispatch(ctx):
+    """SignService.sign_request hands each ITS-AID to the signer of its profile (PROFILE table): a DENM (PSID 37) routed to
+    the generic signer would lack generationLocation / the certificate signer and be refused by every verifier."""
+    P = ctx.prog
+    fi = P.func(f"{SS}.sign_request")
+    fl = ctx.flows.get(fi)
+    if len(fi.params) < 2:
+        raise AnalysisError("C05: sign_request lost its request parameter")
+    req = fi.params[1]
+    calls = [c for c in _service_calls(P, fi, "SignService", "sign_") if sem.same(c.func.value, "self")]
+    home = {p: name for name, (psids, _a, _o) in PROFILE.items() for p in psids}
+    for psid in sorted(home):
+        reach = sorted({c.func.attr for c in calls if reachable_under(P, fl, fi, c, lambda e: sem.same(e, f"{req}.its_aid"), psid)})
+        same_req = all(len(c.args) == 1 and not c.keywords and sem.same(c.args[0], req) for c in calls if c.func.attr in reach)
+        if home[psid] == "sign_cam":
+            # CAM / VAM are signed by the router through sign_cam directly; the generic entry may refuse or use a compatible profile
+            ok = set(reach) <= ({"sign_cam"} if psid == 36 else {"sign_cam", "sign_other"})
+        else:
+            ok = reach == [home[psid]]
+        ctx.ob("C05.signer-kind", fi.short(), f"psid{psid}:dispatch", ok and same_req,
+               f"sign_request(its_aid={psid}) is served by {reach or 'nothing'}; the profile table assigns {home[psid]}"
+               + ("" if same_req else " (and the request handed on is not the one received)"), fi.loc)
 
 
 def get_ticket(ctx):
     P = ctx.prog
     fi = P.func(f"{SS}.get_present_at_for_signging")
     fl = ctx.flows.get(fi)
+    if len(fi.params) < 2:
+        raise AnalysisError("C05: get_present_at_for_signging lost its ITS-AID parameter")
+    aid = fi.params[1]
+    n = 0
+    own = True
     for k, s, st in fl.exits:
-        if k == "return" and P.try_fold(fi.module, s.value, default="x") is not None:
-            conds = {norm(pretty(f.key)): f.pol for f in st.facts if f.kind == "cond"}
-            ctx.ob("C05.signing-ticket", fi.short(), "covers-its-aid", conds.get("its_aidincert.get_list_of_its_aid()") is True,
-                   "the ticket returned lists the requested ITS-AID among its appPermissions", f"{fi.module.rel}:{s.lineno}")
-    src = norm(unparse(fi.node))
-    ctx.ob("C05.signing-ticket", fi.short(), "own-only", "forcertinself.certificate_library.own_certificates.values()" in src,
-           "only own certificates are candidates", fi.loc)
+        if k != "return" or s.value is None or P.try_fold(fi.module, s.value, default="x") is None:
+            continue
+        n += 1
+        x = fl.expand(s.value, st)
+        d = SU.for_def(fl, x.id) if isinstance(x, ast.Name) else None
+        covers = d is not None and sem.holds(SU.vatoms(fl, s), f"{aid} in {x.id.replace('@', '__v')}.get_list_of_its_aid()")
+        ctx.ob("C05.signing-ticket", fi.short(), "covers-its-aid", covers,
+               "the ticket returned lists the requested ITS-AID among its appPermissions", f"{fi.module.rel}:{s.lineno}")
+        own = own and d is not None and sem.same(SU.unwrap_collection(SU.for_iter(fl, d)), "self.certificate_library.own_certificates.values()")
+    ctx.ob("C05.signing-ticket", fi.short(), "own-only", own and n > 0, "only own certificates are candidates", fi.loc)
+
+
+def _kleene_and(vals):
+    return False if any(v is False for v in vals) else (True if all(v is True for v in vals) else None)
+
+
+def _kleene_or(vals):
+    return True if any(v is True for v in vals) else (False if all(v is False for v in vals) else None)
+
+
+class MessageModel:
+    """What an honestly signed message looks like to verify(): PSID, headerInfo keys present, signer choice.  Evaluates
+    verify()'s (expanded) conditions to True / False / None (does not depend on the model)."""
+
+    def __init__(self, P, fi, fl, root: str):
+        self.P, self.fi, self.fl, self.root = P, fi, fl, root
+        self.hi_forms = (f"{root}['tbsData'].get('headerInfo', {{}})", f"{root}['tbsData']['headerInfo']")
+
+    def is_hi(self, e) -> bool:
+        return any(sem.same(e, f) for f in self.hi_forms)
+
+    def is_psid(self, e) -> bool:
+        if isinstance(e, ast.Subscript) and isinstance(e.slice, ast.Constant) and e.slice.value == "psid":
+            return self.is_hi(e.value)
+        return isinstance(e, ast.Call) and isinstance(e.func, ast.Attribute) and e.func.attr == "get" and e.args and \
+            isinstance(e.args[0], ast.Constant) and e.args[0].value == "psid" and self.is_hi(e.func.value)
+
+    def is_kind(self, e) -> bool:
+        return sem.same(e, f"{self.root}['signer'][0]")
+
+    def loop_values(self, name: str):
+        """constants a loop variable token ranges over (literal collection), else None"""
+        d = SU.for_def(self.fl, name)
+        if d is None:
+            return None
+        it = SU.unwrap_collection(SU.for_iter(self.fl, d))
+        if isinstance(it, (ast.Set, ast.List, ast.Tuple)) and all(isinstance(x, ast.Constant) for x in it.elts):
+            return [x.value for x in it.elts]
+        return None
+
+    def val(self, e, m):
+        """(known, value) of a scalar expression under model m"""
+        if self.is_psid(e):
+            return True, m["psid"]
+        if self.is_kind(e):
+            return True, m["kind"]
+        if isinstance(e, ast.Name) and e.id in m["bind"]:
+            return True, m["bind"][e.id]
+        k = self.P.try_fold(self.fi.module, e, default="<nc>")
+        return (k != "<nc>"), k
+
+    def ev(self, node, m):
+        if isinstance(node, ast.BoolOp):
+            vals = [self.ev(v, m) for v in node.values]
+            return _kleene_and(vals) if isinstance(node.op, ast.And) else _kleene_or(vals)
+        if isinstance(node, ast.UnaryOp) and isinstance(node.op, ast.Not):
+            v = self.ev(node.operand, m)
+            return None if v is None else (not v)
+        if isinstance(node, ast.Compare) and len(node.ops) == 1:
+            op, l, r = node.ops[0], node.left, node.comparators[0]
+            if isinstance(op, (ast.Eq, ast.NotEq, ast.Is, ast.IsNot)):
+                if not any(self.is_psid(x) or self.is_kind(x) for x in (l, r)):
+                    return None
+                (kl, vl), (kr, vr) = self.val(l, m), self.val(r, m)
+                if not (kl and kr):
+                    return None
+                res = vl == vr
+                return res if isinstance(op, (ast.Eq, ast.Is)) else not res
+            if isinstance(op, (ast.In, ast.NotIn)):
+                res = None
+                if self.is_hi(r):
+                    k, v = self.val(l, m)
+                    if k and isinstance(v, str):
+                        res = v in m["keys"]
+                elif (self.is_psid(l) or self.is_kind(l)) and isinstance(r, (ast.Tuple, ast.List, ast.Set)):
+                    k, v = self.val(l, m)
+                    ks = [self.val(x, m) for x in r.elts]
+                    if any(kk and vv == v for kk, vv in ks):
+                        res = True
+                    elif all(kk for kk, vv in ks):
+                        res = False
+                if res is None:
+                    return None
+                return res if isinstance(op, ast.In) else not res
+        return None
 
 
 def verifier_vs_signers(ctx, emitted):
-    """signer-may-emit ∩ verifier-rejects = ∅ and verifier-requires ⊆ signer-always, per PSID."""
+    """No profile check of verify() refuses what a signer honestly emits: for every signer, PSID it serves, subset of its
+    optional headerInfo keys and signer choice, no rejecting exit of verify() is decided by PSID / key presence / signer
+    choice alone."""
     P = ctx.prog
     vf = P.func(f"{VS}.verify")
     fl = ctx.flows.get(vf)
-    rejects = []     # (psid facts, [(key, present?)] deciding this exit, line)
+    if len(vf.params) < 2:
+        raise AnalysisError("C05: VerifyService.verify lost its request parameter")
+    root = f"SECURITY_CODER.decode_etsi_ts_103097_data_signed({vf.params[1]}.message)['content'][1]"
+    mm = MessageModel(P, vf, fl, root)
+    exits = []     # (report, index among same report, return stmt, deciding (node, pol), facts, loop bindings)
+    seen = {}
     for k, s, st in fl.exits:
-        if k != "return" or not isinstance(s.value, ast.Call):
+        if k != "return":
             continue
-        rep = [kw.value for kw in s.value.keywords if kw.arg == "report"]
-        if not rep or "SUCCESS" in unparse(rep[0]):
+        rep = _report(P, vf, fl, s, st)
+        if rep is None or rep == "SUCCESS":
             continue
-        psid_facts = []
-        for f in st.facts:
-            if f.kind == "cond":
-                m = re.fullmatch(r"(_?psid\w*)==(\d+)", norm(pretty(f.key)))
-                if m:
-                    psid_facts.append((int(m.group(2)), f.pol))
-        # the deciding test = the innermost `if` whose body holds this return, in disjunctive normal form
         par = fl.parent.get(id(s))
-        if not (isinstance(par, ast.If) and s in par.body):
+        if not isinstance(par, ast.If):
             continue
+        pol = s in par.body
+        test = fl.expand(par.test, fl.state_at(par))
+        facts = [(f.xnode, f.pol) for f in st.facts if f.kind == "cond"]
+        loops = {}
+        for node, _ in facts + [(test, pol)]:
+            for n in ast.walk(node):
+                if isinstance(n, ast.Name) and n.id not in loops:
+                    vs = mm.loop_values(n.id)
+                    if vs is not None:
+                        loops[n.id] = vs
+        idx = seen.get(rep, 0)
+        seen[rep] = idx + 1
+        exits.append((rep, idx, s, (test, pol), facts, loops))
 
-        def dnf(t):
-            if isinstance(t, ast.BoolOp) and isinstance(t.op, ast.Or):
-                out = []
-                for v in t.values:
-                    out += dnf(v)
-                return out
-            if isinstance(t, ast.BoolOp) and isinstance(t.op, ast.And):
-                out = [[]]
-                for v in t.values:
-                    out = [a + b for a in out for b in dnf(v)]
-                return out
-            return [[t]]
-        for conj in dnf(par.test):
-            pf = list(psid_facts)
-            key_facts = []
-            for t in conj:
-                tt = norm(unparse(t))
-                m = re.fullmatch(r"'(\w+)'notin(header_info|_header_info_early)", tt)
-                if m:
-                    key_facts.append((m.group(1), False))
-                m = re.fullmatch(r"'(\w+)'in(header_info|_header_info_early)", tt)
-                if m:
-                    key_facts.append((m.group(1), True))
-                m = re.fullmatch(r"(_?psid\w*)(==|!=)(\d+)", tt)
-                if m:
-                    pf.append((int(m.group(3)), m.group(2) == "=="))
-                if tt == "_fieldinheader_info":
-                    for n in ast.walk(vf.node):
-                        if isinstance(n, ast.Assign) and dotted(n.targets[0]) == "_denm_forbidden" and isinstance(n.value, ast.Set):
-                            for e in n.value.elts:
-                                key_facts.append((e.value, True))
-            if key_facts:
-                rejects.append((pf, key_facts, s.lineno))
-    if len(rejects) < 4:
-        raise AnalysisError(f"C05: only {len(rejects)} profile-rejecting exits recognised in VerifyService.verify (confirmed: 5)")
+    def models(name, p, lit_keys, opt_keys, kinds, loops):
+        opt = sorted(opt_keys)
+        for mask in range(1 << len(opt)):
+            keys = set(lit_keys) | {k for i, k in enumerate(opt) if mask >> i & 1}
+            for kind in sorted(kinds):
+                binds = [{}]
+                for tok, vs in loops.items():
+                    binds = [dict(b, **{tok: v}) for b in binds for v in vs]
+                for b in binds:
+                    yield {"psid": p, "keys": keys, "kind": kind, "bind": b}
 
-    def consistent(p, facts):
-        return all((p == v) == pol for v, pol in facts)
-    for name, (psids, always, optional) in emitted.items():
+    def refuses(ex, m):
+        rep, idx, s, (test, pol), facts, loops = ex
+        d = mm.ev(test, m)
+        if d is None:
+            return None
+        if d != pol:
+            return False
+        for node, fp in facts:
+            v = mm.ev(node, m)
+            if v is not None and v != fp:
+                return False
+        return True
+    decidable = set()
+    for name, (psids, lit_keys, opt_keys) in emitted.items():
         for p in psids:
-            for psid_facts, key_facts, line in rejects:
-                if not consistent(p, psid_facts):
+            for ex in exits:
+                res = [(refuses(ex, m), m) for m in models(name, p, lit_keys, opt_keys, KIND[name], ex[5])]
+                if all(r is None for r, m in res):
                     continue
-                for key, present in key_facts:
-                    if present:
-                        ctx.ob("C05.profile-keys", vf.short(), f"psid{p}:{name}:forbids:{key}", key not in (always | optional),
-                               f"verify() rejects PSID {p} messages carrying headerInfo.{key} (line {line}); {name} " +
-                               ("never emits it" if key not in (always | optional) else
-                                "may emit it: honestly signed messages of this profile are refused"), f"{vf.module.rel}:{line}")
-                    else:
-                        ctx.ob("C05.profile-keys", vf.short(), f"psid{p}:{name}:requires:{key}", key in always,
-                               f"verify() requires headerInfo.{key} for PSID {p} (line {line}); {name} " +
-                               ("always emits it" if key in always else "does not always emit it"), f"{vf.module.rel}:{line}")
-            ctx.ob("C05.profile-keys", vf.short(), f"psid{p}:{name}:compatible", True,
-                   f"profile checks of verify() evaluated against what {name} emits for PSID {p}", vf.loc)
-    # DENM must come with a certificate signer (early exit) - and DENM signer always sends one (checked above)
-    src = norm(unparse(vf.node))
-    ctx.ob("C05.profile-keys", vf.short(), "denm-needs-certificate", "_psid_early==37andsigner[0]!='certificate'" in src,
-           "verifier insists on a certificate signer for PSID 37 only", vf.loc)
+                decidable.add((ex[0], ex[1]))
+                bad = [m for r, m in res if r is True]
+                why = ""
+                if bad:
+                    m = bad[0]
+                    why = (f"refuses a PSID {p} message signed by {name} with headerInfo {sorted(m['keys'])} and signer choice "
+                           f"'{m['kind']}'" + (f" (checked field {list(m['bind'].values())})" if m["bind"] else "") +
+                           ": honestly signed messages of this profile are refused")
+                ctx.ob("C05.profile-keys", vf.short(), f"psid{p}:{name}:{ex[0]}#{ex[1]}", not bad,
+                       f"verify() exit {ex[0]} (line {ex[2].lineno}) " + (why or f"never refuses what {name} emits for PSID {p}"),
+                       f"{vf.module.rel}:{ex[2].lineno}")
+    if len(decidable) < 4:
+        raise AnalysisError(f"C05: only {len(decidable)} profile-deciding exits recognised in VerifyService.verify (confirmed: 5)")
+    # the one strictness clause of 7.1.2 the profile relies on: a DENM under a digest signer is refused
+    always_denm = PROFILE["sign_denm"][1]
+    ok = False
+    for ex in exits:
+        for b in ([{}] if not ex[5] else []):
+            if refuses(ex, {"psid": 37, "keys": set(always_denm), "kind": "digest", "bind": b}) is True:
+                ok = True
+    ctx.ob("C05.profile-keys", vf.short(), "denm-needs-certificate", ok,
+           "verifier insists on a certificate signer for PSID 37", vf.loc)
+    ctx.floor("C05.profile-keys", 33)
 
 
 def inclusion_state(ctx):
@@ -268,29 +462,59 @@ def inclusion_state(ctx):
     h = P.cls(CAMH)
     sus = h.methods["set_up_signer"]
     fl = ctx.flows.get(sus)
-    # trigger
-    cert_defs = [n for n in ast.walk(sus.node) if isinstance(n, ast.Assign) and dotted(n.targets[0]) == "signer" and "certificate" in unparse(n.value)
-                 and "'certificate'" in unparse(n.value)]
-    ok = False
-    for n in cert_defs:
-        st = fl.state_at(n)
-        encl = fl.parent.get(id(n))
-        st_if = fl.before.get(id(encl), st) if isinstance(encl, ast.If) else st
-        st_body = fl.before.get(id(encl.body[0]), st) if isinstance(encl, ast.If) else st   # before the state is reset
-        for f in st_body.facts:
-            if f.kind == "cond" and f.pol and isinstance(f.node, ast.BoolOp) and isinstance(f.node.op, ast.Or):
-                parts = [norm(pretty(unparse(fl.expand(v, st_if)))) for v in f.node.values]
-                t_ok = any(re.fullmatch(r"TimeService\.time\(\)-self\.last_signer_full_certificate_time>(1|1\.0)", p) for p in parts)
-                r_ok = "self.requested_own_certificate" in parts
-                ok = t_ok and r_ok
+    if len(sus.params) < 2:
+        raise AnalysisError("C05: set_up_signer lost its certificate parameter")
+    cert_p = sus.params[1]
+    cert_form, digest_form = f"('certificate', [{cert_p}.certificate])", f"('digest', {cert_p}.as_hashedid8())"
+    elapsed = "TimeService.time() - self.last_signer_full_certificate_time"
+    triggers = [sorted(sem.want(f"{elapsed} > {one} or self.requested_own_certificate")) for one in ("1", "1.0")]
+    # every value set_up_signer can answer, with the branch conditions it is chosen under
+    cert_sites, digest_sites, other = [], [], []
+    for k, s_, st in fl.exits:
+        if k != "return" or s_.value is None:
+            continue
+        if isinstance(s_.value, ast.Name) and fl.reaching(s_.value.id, st):
+            cands = [(d.stmt, d.value if d.kind == "assign" else None, d.kind) for d in fl.reaching(s_.value.id, st)]
+        else:
+            cands = [(s_, s_.value, "return")]
+        for stmt_, val_, kind_ in cands:
+            xv = fl.expand(val_, fl.state_at(stmt_)) if val_ is not None else None
+            if xv is not None and sem.same(xv, cert_form):
+                cert_sites.append(stmt_)
+            elif xv is not None and sem.same(xv, digest_form):
+                digest_sites.append(stmt_)
+            else:
+                other.append(pretty(unparse(xv)) if xv is not None else kind_)
+
+    def branch_atoms(node):
+        """atoms of the tests of the enclosing ifs, each evaluated where it is tested"""
+        out, cur, child = [], fl.parent.get(id(node)), node
+        while cur is not None and cur is not sus.node:
+            if isinstance(cur, ast.If):
+                out += sem.atoms(fl.expand(cur.test, fl.state_at(cur)), child in cur.body)
+            elif not isinstance(cur, ast.With):
+                out.append("<loop/try>")
+            child, cur = cur, fl.parent.get(id(cur))
+        return sorted(out)
+    ok = len(cert_sites) == 1 and not other and branch_atoms(cert_sites[0]) in triggers
     ctx.ob("C05.signer-kind", sus.short(), "trigger", ok,
-           "full certificate when `now - last_inclusion > 1 s` OR a peer asked for it", sus.loc)
-    src = norm(unparse(sus.node))
-    resets = "self.last_signer_full_certificate_time=current_time" in src and "self.requested_own_certificate=False" in src
+           "full certificate when `now - last_inclusion > 1 s` OR a peer asked for it"
+           + ("" if ok else f" - found {[branch_atoms(n) for n in cert_sites]} {other[:2]}"), sus.loc)
+    resets = False
+    if cert_sites:
+        blk, _i = SU.block_of(fl, cert_sites[0])
+        t_ok = r_ok = False
+        for sib in blk or []:
+            if isinstance(sib, ast.Assign) and len(sib.targets) == 1:
+                if sem.same(sib.targets[0], "self.last_signer_full_certificate_time") and \
+                        sem.same(fl.expand(sib.value, fl.state_at(sib)), "TimeService.time()"):
+                    t_ok = True
+                if sem.same(sib.targets[0], "self.requested_own_certificate") and P.try_fold(sus.module, sib.value, default="<nc>") is False:
+                    r_ok = True
+        resets = t_ok and r_ok
     ctx.ob("C05.signer-kind", sus.short(), "resets-on-inclusion", resets, "inclusion restarts the 1 s timer and clears the request flag", sus.loc)
-    dflt = [n for n in ast.walk(sus.node) if isinstance(n, (ast.Assign, ast.AnnAssign)) and n.value is not None and
-            dotted(n.targets[0] if isinstance(n, ast.Assign) else n.target) == "signer" and "'digest'" in unparse(n.value)]
-    ctx.ob("C05.signer-kind", sus.short(), "digest-otherwise", len(dflt) == 1 and norm(unparse(dflt[0].value)) == "('digest',certificate.as_hashedid8())",
+    untriggered = [[]] + [sorted(sem.want(f"{elapsed} > {one} or self.requested_own_certificate", False)) for one in ("1", "1.0")]
+    ctx.ob("C05.signer-kind", sus.short(), "digest-otherwise", len(digest_sites) == 1 and not other and branch_atoms(digest_sites[0]) in untriggered,
            "otherwise the HashedId8 digest of the signing ticket", sus.loc)
     # who writes the alternation state
     for fld in ("last_signer_full_certificate_time", "requested_own_certificate"):
@@ -312,111 +536,416 @@ def inclusion_state(ctx):
     ctx.floor("C05.inclusion-state", 4, "writes")
 
 
+def xatoms(fl, node) -> set:
+    """Canonical guard atoms in force where `node` is evaluated, over the EXPANDED conditions only."""
+    out = set()
+    for f in fl.state_at(node).facts:
+        if f.kind == "cond":
+            out.update(sem.atoms(f.xnode, f.pol))
+    return out
+
+
+def eval3(P, mod, node, is_subject, value):
+    """Kleene truth value of `node` under the assumption <subject> == value (a folded constant); None = unknown."""
+    if isinstance(node, ast.BoolOp):
+        vals = [eval3(P, mod, v, is_subject, value) for v in node.values]
+        if isinstance(node.op, ast.And):
+            return False if any(v is False for v in vals) else (True if all(v is True for v in vals) else None)
+        return True if any(v is True for v in vals) else (False if all(v is False for v in vals) else None)
+    if isinstance(node, ast.UnaryOp) and isinstance(node.op, ast.Not):
+        v = eval3(P, mod, node.operand, is_subject, value)
+        return None if v is None else (not v)
+    if isinstance(node, ast.Compare) and len(node.ops) == 1:
+        op, l, r = node.ops[0], node.left, node.comparators[0]
+
+        def val(e):
+            if is_subject(e):
+                return True, value
+            k = P.try_fold(mod, e, default="<nc>")
+            return (k != "<nc>"), k
+        if isinstance(op, (ast.Eq, ast.NotEq, ast.Is, ast.IsNot)):
+            (kl, vl), (kr, vr) = val(l), val(r)
+            if not (kl and kr) or not (is_subject(l) or is_subject(r)):
+                return None
+            res = vl == vr
+            return res if isinstance(op, (ast.Eq, ast.Is)) else not res
+        if isinstance(op, (ast.In, ast.NotIn)) and is_subject(l) and isinstance(r, (ast.Tuple, ast.List, ast.Set)):
+            ks = [val(e) for e in r.elts]
+            if any(k and v == value for k, v in ks):
+                res = True
+            elif all(k for k, v in ks):
+                res = False
+            else:
+                return None
+            return res if isinstance(op, ast.In) else not res
+    return None
+
+
+def reachable_under(P, fl, fi, node, is_subject, value) -> bool:
+    """No guard of `node` is contradicted by <subject> == value."""
+    for f in fl.state_at(node).facts:
+        if f.kind != "cond":
+            continue
+        v = eval3(P, fi.module, f.xnode, is_subject, value)
+        if v is not None and v != f.pol:
+            return False
+    return True
+
+
+def _service_calls(P, fi, cls_name: str, prefix: str = "") -> list:
+    """Calls in fi that resolve to a method of class `cls_name` (name starting with prefix)."""
+    out = []
+    for c in P.calls_in(fi):
+        if not isinstance(c.func, ast.Attribute):
+            continue
+        for t in P.call_targets(fi, c, count=False):
+            if isinstance(t, FuncInfo) and t.cls is not None and t.cls.name == cls_name and t.name.startswith(prefix):
+                out.append(c)
+                break
+    return out
+
+
+def _report(P, fi, fl, s, st):
+    """Name of the ReportVerify member carried by the SNVERIFYConfirm a return statement answers (else None)."""
+    v = fl.expand(s.value, st) if s.value is not None else None
+    if not isinstance(v, ast.Call):
+        return None
+    rep = [kw.value for kw in v.keywords if kw.arg == "report"] or list(v.args[:1])
+    if not rep:
+        return None
+    r = P.try_fold(fi.module, rep[0])
+    return r[2] if isinstance(r, tuple) and len(r) == 3 and r[0] == "enum" else None
+
+
+def notified(P, fl, fi, exit_s, method: str, arg_rule):
+    """Some call self.sign_service.<method>(ARG) is made on the way to `exit_s` whenever a sign service is attached:
+    its guards beyond those of the exit are `self.sign_service is not None` plus what arg_rule allows, it is not inside a
+    loop / try, and its statement precedes the exit.  arg_rule(expanded ARG) -> (ok, extra allowed atoms, why)."""
+    f_exit = xatoms(fl, exit_s)
+    g = set(sem.want("self.sign_service is not None"))
+    why = f"no call of sign_service.{method} found"
+    for c in _service_calls(P, fi, "SignService", method):
+        if c.func.attr != method or not sem.same(fl.expand(c.func.value, fl.state_at(c)), "self.sign_service"):
+            continue
+        if len(c.args) != 1 or c.keywords:
+            why = "unexpected arguments"
+            continue
+        ok, allowed, w = arg_rule(fl.expand(c.args[0], fl.state_at(c)))
+        if not ok:
+            why = w
+            continue
+        extra = xatoms(fl, c) - f_exit - g - set(allowed)
+        if extra:
+            why = f"the notification additionally requires {sorted(extra)[:3]}"
+            continue
+        if not SU.runs_before(fl, c, exit_s):
+            why = "the notification is not on every path to this exit (loop / try / later statement)"
+            continue
+        return True, w
+    return False, why
+
+
 def p2pcd(ctx):
     P = ctx.prog
     vf = P.func(f"{VS}.verify")
     fl = ctx.flows.get(vf)
+    if len(vf.params) < 2:
+        raise AnalysisError("C05: VerifyService.verify lost its request parameter")
+    root = f"SECURITY_CODER.decode_etsi_ts_103097_data_signed({vf.params[1]}.message)['content'][1]"
+
+    def digest_arg(x):
+        ok = sem.same(x, f"{root}['signer'][1]")
+        return ok, set(), ("reports the message's signer digest" if ok else f"reports `{pretty(unparse(x))[:80]}` (not the message's signer digest)")
+
+    def issuer_arg(x):
+        iss = x.value if isinstance(x, ast.Subscript) and isinstance(x.slice, ast.Constant) and x.slice.value == 1 else None
+        cert0 = f"{root}['signer'][1][0]"
+        ok = iss is not None and (sem.same(iss, f"{cert0}['issuer']") or (
+            isinstance(iss, ast.Call) and isinstance(iss.func, ast.Attribute) and iss.func.attr == "get" and iss.args
+            and sem.same(iss.func.value, cert0) and sem.same(iss.args[0], "'issuer'")))
+        if not ok:
+            return False, set(), f"reports `{pretty(unparse(x))[:80]}` (not the issuer digest of the message's certificate)"
+        u = unparse(iss)
+        allowed = set()
+        for src in (f"({u})[0] in ('sha256AndDigest', 'sha384AndDigest')", f"({u})[0] in ('sha384AndDigest', 'sha256AndDigest')",
+                    f"({u})[0] == 'sha256AndDigest' or ({u})[0] == 'sha384AndDigest'", f"({u})[0] != 'self'", f"({u})[1] is not None"):
+            allowed.update(sem.want(src))
+        return True, allowed, "reports the issuer digest of the unverifiable certificate"
+
+    def header_arg(key):
+        def rule(x):
+            hi = x.value if isinstance(x, ast.Subscript) and isinstance(x.slice, ast.Constant) and x.slice.value == key else None
+            ok = hi is not None and any(sem.same(hi, f) for f in (f"{root}['tbsData'].get('headerInfo', {{}})", f"{root}['tbsData']['headerInfo']"))
+            if not ok:
+                return False, set(), f"relays `{pretty(unparse(x))[:80]}` (not headerInfo.{key} of the verified message)"
+            return True, set(sem.want(f"{key!r} in {unparse(hi)}")), f"relays headerInfo.{key} of the verified message"
+        return rule
     for k, s, st in fl.exits:
-        if k != "return" or not isinstance(s.value, ast.Call):
+        if k != "return":
             continue
-        rep = [unparse(kw.value) for kw in s.value.keywords if kw.arg == "report"]
-        if not rep:
-            continue
-        calls = [pretty(f.xkey) for f in st.facts if f.kind == "call"]
-        if rep[0].endswith("SIGNER_CERTIFICATE_NOT_FOUND"):
-            # notification happens when a sign service is attached
-            src = norm(unparse(fl.parent[id(s)])) if id(s) in fl.parent else ""
-            ctx.ob("C05.p2pcd", vf.short(), "unknown-digest-notifies", "self.sign_service.notify_unknown_at(signer[1])" in norm(unparse(vf.node)),
-                   "an unknown signer digest is reported to the sign service (request the ticket from the peer)", f"{vf.module.rel}:{s.lineno}")
-        if rep[0].endswith("INCONSISTENT_CHAIN"):
-            ctx.ob("C05.p2pcd", vf.short(), "unknown-issuer-notifies", "self.sign_service.notify_unknown_at(issuer[1])" in norm(unparse(vf.node)),
-                   "a certificate under an unknown issuer is reported to the sign service", f"{vf.module.rel}:{s.lineno}")
-        if rep[0].endswith("SUCCESS"):
-            src = norm(unparse(vf.node))
-            ctx.ob("C05.p2pcd", vf.short(), "relays-inline-request",
-                   "if'inlineP2pcdRequest'inheader_info:self.sign_service.notify_inline_p2pcd_request(header_info['inlineP2pcdRequest'])" in src,
-                   "a verified inlineP2pcdRequest is relayed to the sign service", f"{vf.module.rel}:{s.lineno}")
-            ctx.ob("C05.p2pcd", vf.short(), "relays-requested-certificate",
-                   "if'requestedCertificate'inheader_info:self.sign_service.notify_received_ca_certificate(header_info['requestedCertificate'])" in src,
-                   "a verified requestedCertificate is handed to the sign service", f"{vf.module.rel}:{s.lineno}")
+        rep = _report(P, vf, fl, s, st)
+        loc = f"{vf.module.rel}:{s.lineno}"
+        if rep == "SIGNER_CERTIFICATE_NOT_FOUND":
+            ok, why = notified(P, fl, vf, s, "notify_unknown_at", digest_arg)
+            ctx.ob("C05.p2pcd", vf.short(), "unknown-digest-notifies", ok,
+                   f"an unknown signer digest is reported to the sign service whenever one is attached (request the ticket from the peer): {why}", loc)
+        if rep == "INCONSISTENT_CHAIN":
+            ok, why = notified(P, fl, vf, s, "notify_unknown_at", issuer_arg)
+            ctx.ob("C05.p2pcd", vf.short(), "unknown-issuer-notifies", ok,
+                   f"a certificate under an unknown issuer is reported to the sign service whenever one is attached: {why}", loc)
+        if rep == "SUCCESS":
+            ok, why = notified(P, fl, vf, s, "notify_inline_p2pcd_request", header_arg("inlineP2pcdRequest"))
+            ctx.ob("C05.p2pcd", vf.short(), "relays-inline-request", ok,
+                   f"a verified inlineP2pcdRequest is relayed to the sign service: {why}", loc)
+            ok, why = notified(P, fl, vf, s, "notify_received_ca_certificate", header_arg("requestedCertificate"))
+            ctx.ob("C05.p2pcd", vf.short(), "relays-requested-certificate", ok,
+                   f"a verified requestedCertificate is handed to the sign service: {why}", loc)
     ss = P.cls(SS)
+    flag = "self.cam_handler.requested_own_certificate"
     nu = ss.methods["notify_unknown_at"]
-    src = norm(unparse(nu.node))
-    ctx.ob("C05.p2pcd", nu.short(), "queues-and-requests", "self.unknown_ats.append(hashedid3)" in src and
-           "self.cam_handler.requested_own_certificate=True" in src and "hashedid3=hashedid8[-3:]" in src,
-           "an unknown ticket is queued (HashedId3) and the own certificate is scheduled for the next CAM/VAM", nu.loc)
+    fl = ctx.flows.get(nu)
+    if len(nu.params) < 2:
+        raise AnalysisError("C05: notify_unknown_at lost its digest parameter")
+    h3 = f"{nu.params[1]}[-3:]"
+    sched = any(isinstance(n, ast.Assign) and len(n.targets) == 1 and sem.same(n.targets[0], flag)
+                and P.try_fold(nu.module, n.value, default="<nc>") is True and not xatoms(fl, n) and SU.only_if_ancestors(fl, n) is not None
+                for n in ast.walk(nu.node))
+    queued = False
+    for c in P.calls_in(nu):
+        if isinstance(c.func, ast.Attribute) and c.func.attr == "append" and sem.same(c.func.value, "self.unknown_ats") and len(c.args) == 1:
+            if sem.same(fl.expand(c.args[0], fl.state_at(c)), h3) and xatoms(fl, c) <= set(sem.want(f"{h3} not in self.unknown_ats")) \
+                    and SU.only_if_ancestors(fl, c) is not None:
+                queued = True
+    ctx.ob("C05.p2pcd", nu.short(), "queues-and-requests", sched and queued,
+           "an unknown ticket is queued (HashedId3) and the own certificate is scheduled for the next CAM/VAM"
+           + ("" if sched else " - the own certificate is not scheduled unconditionally") + ("" if queued else " - the HashedId3 is not queued"), nu.loc)
     ni = ss.methods["notify_inline_p2pcd_request"]
     fl = ctx.flows.get(ni)
-    sets = [n for n in ast.walk(ni.node) if isinstance(n, ast.Assign) and dotted(n.targets[0]) == "self.cam_handler.requested_own_certificate"]
+    if len(ni.params) < 2:
+        raise AnalysisError("C05: notify_inline_p2pcd_request lost its list parameter")
+    rl = ni.params[1]
+    sets = [n for n in ast.walk(ni.node) if isinstance(n, (ast.Assign, ast.AugAssign, ast.AnnAssign)) and
+            any(sem.same(t, flag) for t in (n.targets if isinstance(n, ast.Assign) else [n.target]))]
     ok = bool(sets)
     for n in sets:
-        st = fl.state_at(n)
-        conds = {norm(pretty(f.xkey)): f.pol for f in st.facts if f.kind == "cond"}
-        ok = ok and P.try_fold(ni.module, n.value) is True and any(
-            v and re.fullmatch(r".*as_hashedid8\(\)\[-3:\]inrequest_list", k) for k, v in conds.items())
+        good = False
+        if isinstance(n, ast.Assign) and P.try_fold(ni.module, n.value, default="<nc>") is True:
+            va = SU.vatoms(fl, n)
+            for f in fl.state_at(n).facts:
+                for x in ast.walk(f.xnode):
+                    d = SU.for_def(fl, x.id) if isinstance(x, ast.Name) else None
+                    if d is None or not sem.same(SU.unwrap_collection(SU.for_iter(fl, d)), "self.certificate_library.own_certificates.values()"):
+                        continue
+                    want = set(sem.want(f"{x.id.replace('@', '__v')}.as_hashedid8()[-3:] in {rl}"))
+                    # the only guard is `own HashedId3 listed`, the only enclosing statements that test and the loop over ALL own tickets
+                    encl, cur = [], fl.parent.get(id(n))
+                    while cur is not None and cur is not ni.node:
+                        encl.append(cur)
+                        cur = fl.parent.get(id(cur))
+                    if want <= va and va <= want and all(isinstance(e, ast.If) or e is d.stmt for e in encl):
+                        good = True
+        ok = ok and good
     ctx.ob("C05.p2pcd", ni.short(), "own-id-listed-schedules-certificate", ok,
            "when ANY entry of a received request list is an own HashedId3 the own certificate is scheduled (the flag is only ever set)", ni.loc)
     sc = ss.methods["sign_cam"]
-    src = norm(unparse(sc.node))
-    ctx.ob("C05.p2pcd", sc.short(), "attaches-request", "iflen(self.unknown_ats)>0:" in src and "['inlineP2pcdRequest']=" in src,
-           "pending unknown tickets are requested in the next CAM/VAM", sc.loc)
+    ok, why = attaches_request(ctx, sc)
+    ctx.ob("C05.p2pcd", sc.short(), "attaches-request", ok,
+           f"pending unknown tickets are requested in the next CAM/VAM: {why}", sc.loc)
     ctx.floor("C05.p2pcd", 7)
+
+
+def _copy_base(v: ast.AST) -> ast.AST:
+    """list(x) / tuple(x) / x.copy() / x[:] / [*x] / copy(x) / deepcopy(x) -> x (a value with the same elements)."""
+    while True:
+        if isinstance(v, ast.Call) and dotted(v.func) in ("list", "tuple", "copy", "deepcopy", "copy.copy", "copy.deepcopy") \
+                and len(v.args) == 1 and not v.keywords:
+            v = v.args[0]
+        elif isinstance(v, ast.Call) and isinstance(v.func, ast.Attribute) and v.func.attr == "copy" and not v.args and not v.keywords:
+            v = v.func.value
+        elif isinstance(v, ast.Subscript) and isinstance(v.slice, ast.Slice) and v.slice.lower is None and v.slice.upper is None \
+                and v.slice.step is None:
+            v = v.value
+        elif isinstance(v, (ast.List, ast.Tuple)) and len(v.elts) == 1 and isinstance(v.elts[0], ast.Starred):
+            v = v.elts[0].value
+        else:
+            return v
+
+
+def attaches_request(ctx, sc):
+    """sign_cam stores the pending unknown-ticket list under tbsData.headerInfo.inlineP2pcdRequest of the message it
+    signs, guarded by nothing but `the list is non-empty`, before the TBS encoding.  -> (ok, why)"""
+    P = ctx.prog
+    fl = ctx.flows.get(sc)
+    emitted = [c for c in P.calls_in(sc) if isinstance(c.func, ast.Attribute) and c.func.attr == "encode_etsi_ts_103097_data_signed" and c.args]
+    tbs = [c for c in P.calls_in(sc) if isinstance(c.func, ast.Attribute) and c.func.attr == "encode_to_be_signed_data"]
+    if len(emitted) != 1 or len(tbs) != 1:
+        return False, "message / TBS encoding not recognised"
+    root_x = fl.expand(emitted[0].args[0], fl.state_at(emitted[0]))
+    why = "no store to headerInfo.inlineP2pcdRequest of the signed message"
+    for n in ast.walk(sc.node):
+        if not (isinstance(n, ast.Assign) and len(n.targets) == 1 and isinstance(n.targets[0], ast.Subscript)):
+            continue
+        if _rooted_path(fl, n.targets[0], fl.state_at(n), root_x) != "/content/1/tbsData/headerInfo/inlineP2pcdRequest":
+            continue
+        base = _copy_base(fl.expand(n.value, fl.state_at(n)))
+        if not sem.same(base, "self.unknown_ats"):
+            why = f"the request carries `{pretty(unparse(base))[:60]}` (not the pending unknown tickets)"
+            continue
+        extra = xatoms(fl, n) - set(sem.want("len(self.unknown_ats) > 0"))
+        if extra:
+            why = f"the request is attached only when additionally {sorted(extra)[:3]}"
+            continue
+        if SU.only_if_ancestors(fl, n) is None or not SU.runs_before(fl, n, fl.stmt_of.get(id(tbs[0]), tbs[0])):
+            why = "the store is not on every path to the TBS encoding"
+            continue
+        return True, "attached whenever the pending list is non-empty"
+    return False, why
+
+
+def _concat_parts(e: ast.AST) -> list:
+    """operands of a (bytes) concatenation, in order"""
+    if isinstance(e, ast.BinOp) and isinstance(e.op, ast.Add):
+        return _concat_parts(e.left) + _concat_parts(e.right)
+    return [e]
+
+
+def _ifexp_branches(e: ast.AST, limit: int = 16) -> list:
+    """`e` with every conditional expression resolved to one of its branches (both, unless the test compares two
+    constants by identity: `None is not None`)."""
+    for n in ast.walk(e):
+        if isinstance(n, ast.IfExp):
+            t = n.test
+            take = [n.body, n.orelse]
+            if isinstance(t, ast.Compare) and len(t.ops) == 1 and isinstance(t.ops[0], (ast.Is, ast.IsNot)) and \
+                    isinstance(t.left, ast.Constant) and isinstance(t.comparators[0], ast.Constant):
+                same = t.left.value is t.comparators[0].value
+                take = [n.body] if same == isinstance(t.ops[0], ast.Is) else [n.orelse]
+            out = []
+            for br in take:
+                out += _ifexp_branches(_replace(e, n, br), limit)
+                if len(out) >= limit:
+                    break
+            return out[:limit]
+    return [e]
+
+
+def _replace(root: ast.AST, old: ast.AST, new: ast.AST) -> ast.AST:
+    """copy of root with the node `old` (by identity) replaced by a copy of `new`"""
+    if root is old:
+        return copy.deepcopy(new)
+    out = copy.copy(root)
+    for f, v in ast.iter_fields(root):
+        if isinstance(v, ast.AST):
+            setattr(out, f, _replace(v, old, new))
+        elif isinstance(v, list):
+            setattr(out, f, [_replace(x, old, new) if isinstance(x, ast.AST) else x for x in v])
+    return out
+
+
+def _is_call(e, attr=None, func_dotted=None) -> bool:
+    if not isinstance(e, ast.Call):
+        return False
+    if attr is not None and not (isinstance(e.func, ast.Attribute) and e.func.attr == attr):
+        return False
+    if func_dotted is not None and dotted(e.func) != func_dotted:
+        return False
+    return True
 
 
 def router_encap(ctx):
     P = ctx.prog
-    want = {"gn_data_request_shb": {"COOPERATIVE_AWARENESS_MESSAGE": "sign_cam", "VRU_AWARENESS_MESSAGE": "sign_cam", "<other>": "sign_request"},
-            "gn_data_request_gbc": {"DECENTRALIZED_ENVIRONMENTAL_NOTIFICATION_MESSAGE": "sign_denm"}}
-    for fname, table in want.items():
+    prof = P.cls("security.security_profiles.SecurityProfile")
+    if not prof.is_enum or not prof.enum_members:
+        raise AnalysisError("C05: SecurityProfile is no longer an enumeration")
+    cam_like = {"COOPERATIVE_AWARENESS_MESSAGE", "VRU_AWARENESS_MESSAGE"}      # clause 7.1.1 profile (PSID 36 / 638)
+    denm = "DECENTRALIZED_ENVIRONMENTAL_NOTIFICATION_MESSAGE"                   # clause 7.1.2
+    if not (cam_like | {denm}) <= set(prof.enum_members):
+        raise AnalysisError("C05: SecurityProfile lost a CAM / VAM / DENM member")
+
+    def allowed_for(member):
+        return {"sign_cam"} if member in cam_like else ({"sign_denm", "sign_request"} if member == denm else {"sign_request", "sign_other"})
+    must_sign = {"gn_data_request_shb": set(prof.enum_members), "gn_data_request_gbc": {denm}}
+    for fname in must_sign:
         fi = P.func(f"{ROUTER}.{fname}")
         fl = ctx.flows.get(fi)
+        if len(fi.params) < 2:
+            raise AnalysisError(f"C05: {fname} lost its request parameter")
+        req = fi.params[1]
+
+        def is_profile(e, req=req):
+            return sem.same(e, f"{req}.security_profile")
+        scalls = [c for c in _service_calls(P, fi, "SignService", "sign_") if sem.same(c.func.value, "self.sign_service")]
+        for member in prof.enum_members:
+            val = ("enum", prof.qual, member)
+            reach = sorted({c.func.attr for c in scalls if reachable_under(P, fl, fi, c, is_profile, val)})
+            alw = allowed_for(member)
+            ok = set(reach) <= alw and (bool(reach) or member not in must_sign[fname])
+            ctx.ob("C05.router-encap", fi.short(), f"dispatch:{member}", ok,
+                   f"a request of profile {member} is signed by {reach or 'nothing'}; the profile needs {sorted(alw)}"
+                   + ("" if member in must_sign[fname] else " (or no signature)"), fi.loc)
+        ch = "CommonHeader.initialize_with_request"
+        if fname.endswith("shb"):
+            layout = [("common header", lambda e: _is_call(e, "encode_to_bytes") and _is_call(e.func.value, None, ch)),
+                      ("ego long position vector", lambda e: sem.same(e, "self.ego_position_vector.encode()")),
+                      ("media dependent data", lambda e: sem.same(e, "b'\\x00\\x00\\x00\\x00'")),
+                      ("payload", lambda e, req=req: sem.same(e, f"{req}.data"))]
+        else:
+            layout = [("common header", lambda e: _is_call(e, "encode_to_bytes") and _is_call(e.func.value, None, ch)),
+                      ("GBC extended header", lambda e, req=req: sem.same(
+                          e, f"GBCExtendedHeader.initialize_with_request_sequence_number_ego_pv({req}, self.get_sequence_number(), "
+                             "self.ego_position_vector).encode()")),
+                      ("payload", lambda e, req=req: sem.same(e, f"{req}.data"))]
         n = 0
-        for c in P.calls_in(fi):
-            if not (isinstance(c.func, ast.Attribute) and dotted(c.func.value) == "self.sign_service"):
-                continue
+        for c in scalls:
             n += 1
             st = fl.state_at(c)
-            conds = {norm(pretty(f.xkey)): f.pol for f in st.facts if f.kind == "cond"}
-            profs = [p for p in table if p != "<other>" and any(v and (f"SecurityProfile.{p}" in k) for k, v in conds.items())]
-            exp = {table[p] for p in profs} or ({table["<other>"]} if "<other>" in table else set())
-            ctx.ob("C05.router-encap", fi.short(), f"dispatch:{c.func.attr}", exp == {c.func.attr},
-                   f"{c.func.attr} is used under profile(s) {profs or ['other']}; expected {sorted(exp)}", f"{fi.module.rel}:{c.lineno}")
-            req = fl.expand(c.args[0], st)
-            kws = {kw.arg: norm(pretty(unparse(kw.value))) for kw in req.keywords if kw.arg} if isinstance(req, ast.Call) else {}
-            tbs = kws.get("tbs_message", "")
-            ext = "self.ego_position_vector.encode()+b'\\x00\\x00\\x00\\x00'" if fname.endswith("shb") else \
-                "GBCExtendedHeader.initialize_with_request_sequence_number_ego_pv(request,self.get_sequence_number(),self.ego_position_vector).encode()"
-            ok = tbs.startswith("CommonHeader.initialize_with_request(") and tbs.endswith(f").encode_to_bytes()+{ext}+request.data")
+            rq = fl.expand(c.args[0], st) if len(c.args) == 1 and not c.keywords else None
+            kws = {kw.arg: kw.value for kw in rq.keywords if kw.arg} if isinstance(rq, ast.Call) and not rq.args else {}
+            tbs = kws.get("tbs_message")
+            parts = _concat_parts(tbs) if tbs is not None else []
+            ok = len(parts) == len(layout) and all(t(e) for (_nm, t), e in zip(layout, parts))
+            shown = pretty(unparse(tbs)) if tbs is not None else "?"
             ctx.ob("C05.router-encap", fi.short(), f"signed-bytes:{n}", ok,
-                   f"signed bytes = `{tbs[:60]}...{tbs[-60:]}`; must be Common Header || extended header || payload (what the receiver "
-                   f"parses from plain_message)", f"{fi.module.rel}:{c.lineno}")
-            ctx.ob("C05.router-encap", fi.short(), f"its-aid:{n}", kws.get("its_aid") == "request.its_aid",
-                   f"its_aid = `{kws.get('its_aid')}`", f"{fi.module.rel}:{c.lineno}")
-            ctx.ob("C05.router-encap", fi.short(), f"length:{n}", kws.get("tbs_message_length") == f"len({tbs})",
+                   f"signed bytes = `{shown[:60]}...{shown[-60:]}`; must be " + " || ".join(nm for nm, _t in layout) +
+                   " (what the receiver parses from plain_message)", f"{fi.module.rel}:{c.lineno}")
+            aid = kws.get("its_aid")
+            ctx.ob("C05.router-encap", fi.short(), f"its-aid:{n}", aid is not None and sem.same(aid, f"{req}.its_aid"),
+                   f"its_aid = `{pretty(unparse(aid)) if aid is not None else None}`", f"{fi.module.rel}:{c.lineno}")
+            ln = kws.get("tbs_message_length")
+            ctx.ob("C05.router-encap", fi.short(), f"length:{n}",
+                   ln is not None and tbs is not None and sem.cx(ln) == sem.cx(ast.Call(func=ast.Name(id="len", ctx=ast.Load()), args=[tbs], keywords=[])),
                    "tbs_message_length = len(tbs_message)", f"{fi.module.rel}:{c.lineno}")
         if n == 0:
             raise AnalysisError(f"C05: {fname} no longer calls the sign service")
         # emitted packet: Basic Header with NH = SECURED_PACKET || sec_message
+
+        def restamped(e):
+            return _is_call(e, "set_nh") and len(e.args) == 1 and P.try_fold(fi.module, e.args[0]) == ("enum", P.cls("BasicNH").qual, "SECURED_PACKET")
+
+        def secured(e):
+            return any(isinstance(x, ast.Attribute) and x.attr == "sec_message" for x in ast.walk(e))
         for c in P.calls_in(fi):
-            if isinstance(c.func, ast.Attribute) and c.func.attr == "send":
+            if isinstance(c.func, ast.Attribute) and c.func.attr == "send" and c.args:
                 st = fl.state_at(c)
-                alts = [norm(pretty(unparse(a))) for a in fl.alternatives(c.args[0], st)]
-                sec = [t for t in alts if "sec_message" in t]
+                alts = [_concat_parts(b_) for a_ in fl.alternatives(c.args[0], st) for b_ in _ifexp_branches(a_)]
+                sec = [ps for ps in alts if any(secured(e) for e in ps)]
                 if not sec:
                     continue
-                good = [t for t in sec if re.search(r"\.set_nh\(BasicNH\.SECURED_PACKET\)\.encode_to_bytes\(\)\+\(?self\.sign_service\.sign_\w+\(", t)]
+                good = [ps for ps in sec if len(ps) == 2 and _is_call(ps[0], "encode_to_bytes") and restamped(ps[0].func.value)
+                        and isinstance(ps[1], ast.Attribute) and ps[1].attr == "sec_message" and isinstance(ps[1].value, ast.Call)
+                        and any(ps[1].value.func is not None and sem.cx(ps[1].value.func) == sem.cx(sc_.func) for sc_ in scalls)]
                 # the NH re-stamp and the secured payload are assigned in the same block (same condition): the merged
                 # alternatives that pair one without the other are infeasible
-                nh_sets = [n_ for n_ in ast.walk(fi.node) if isinstance(n_, ast.Assign) and "set_nh(BasicNH.SECURED_PACKET)" in unparse(n_.value)]
-                sec_sets = [n_ for n_ in ast.walk(fi.node) if isinstance(n_, ast.Assign) and unparse(n_.value).endswith(".sec_message")
-                            or (isinstance(n_, ast.Assign) and ".sec_message" in unparse(n_.value) and "encode_to_bytes" in unparse(n_.value))]
+                nh_sets = [n_ for n_ in ast.walk(fi.node) if isinstance(n_, ast.Assign) and restamped(n_.value)]
+                sec_sets = [n_ for n_ in ast.walk(fi.node) if isinstance(n_, ast.Assign) and secured(n_.value)]
                 correlated = bool(nh_sets) and all(any(fl.parent.get(id(a_)) is fl.parent.get(id(b_)) for a_ in nh_sets) for b_ in sec_sets)
                 ok = bool(good) and (len(good) == len(sec) or correlated)
                 ctx.ob("C05.router-encap", fi.short(), f"secured-packet@{c.lineno - fi.node.lineno}", ok,
                        "secured packet = Basic Header with NH=SECURED_PACKET || signed message (NH re-stamped in the block that signs)" if ok else
-                       f"a signed message can be emitted behind a Basic Header whose NH is not SECURED_PACKET: `{(sec[0])[:120]}`",
+                       "a signed message can be emitted behind a Basic Header whose NH is not SECURED_PACKET: "
+                       f"`{pretty(unparse(fl.alternatives(c.args[0], st)[0]))[:120]}`",
                        f"{fi.module.rel}:{c.lineno}")
-    ctx.floor("C05.router-encap", 10)
+    ctx.floor("C05.router-encap", 20)
 
 
 def run(ctx):
@@ -431,6 +960,7 @@ def run(ctx):
     ctx.declined = ["acceptance within two further exchanges over histories of joins", "real-time behaviour of the 1 s timer",
                     "cryptography"]
     emitted = signers(ctx)
+    generic_dispatch(ctx)
     get_ticket(ctx)
     verifier_vs_signers(ctx, emitted)
     inclusion_state(ctx)
